@@ -487,6 +487,27 @@ def Net.clientSend (n : Net) (j : Nat) (m : Option Msg) (dies : Bool) : TrOut :=
   let n2 := if dies then { n1 with deadClients := n1.deadClients ++ [j] } else n1
   { net := n2, emitted := match m with | some msg => [(.client j, .server, msg)] | none => [] }
 
+
+/-- transitions of the network (the labels of the harness's transition log) -/
+inductive Tr where
+  | deliver (src dst : NodeId) (asg ord : List Nat) (died : Bool)
+  | step (id : Int)
+  | client (j : Nat) (m : Option Msg) (dies : Bool)
+deriving Repr
+
+def Net.apply (n : Net) : Tr → TrOut
+  | .deliver s d asg ord died => n.deliver s d asg ord died
+  | .step id => n.workerStep id
+  | .client j m dies => n.clientSend j m dies
+
+def Net.exec (n : Net) (trs : List Tr) : Net := trs.foldl (fun acc t => (acc.apply t).net) n
+
+/-- nothing can happen any more: all channels empty, every live worker blocked on an empty
+    ready queue (clients are inputs) -/
+def Net.quiescent (n : Net) : Bool :=
+  n.chans.all (fun c => c.2.isEmpty)
+  && n.workers.all (fun w => !w.alive || w.mainDead || (w.blocked && w.ready.isEmpty))
+
 /-- initial network -/
 def mkWorkers (ids : List Int) : List Worker := ids.map (fun i => { id := i })
 
